@@ -349,3 +349,129 @@ Example spec_LineSegment_Intersect_ex :
   code (S 1 1 1 1) (S 1 1 1 1) = 1%Z /\ code (S 0 0 0 0) (S 1 2 1 2) = 1%Z /\
   pt_eq (snd (spec_LineSegment_Intersect (S 0 0 2 2) (S 0 2 2 0) pt0)) (mkpt 1 1).
 Proof. vm_compute. repeat split. Qed.
+
+(* ---------------------------------------------------------------------------------------------
+   vpsc::Rectangle::lineIntersections (cola/libvpsc/rectangle.cpp): the line is intersected with the four sides in
+   the order top, bottom, left, right through checkIntersection(); the out-parameter `intersection` is shared by the
+   four calls.  Hand-written model (tie: correspondence with the compiled code on grid rectangles, including
+   zero-width / zero-height ones), parameterised by the segment predicate so that it can be run both with the spec
+   decider and with the generated LineSegment_Intersect. *)
+Inductive rside := STop | SBottom | SLeft | SRight.
+Record rectints := mkri { ri_intersects : bool; ri_top : bool; ri_bottom : bool; ri_left : bool; ri_right : bool;
+                          ri_topP : pt; ri_bottomP : pt; ri_leftP : pt; ri_rightP : pt }.
+Definition ri0 : rectints := mkri false false false false false pt0 pt0 pt0 pt0.   (* RectangleIntersections() *)
+
+(* case INTERSECTING of checkIntersection: ri.intersects = side = true; sideX/Y = intersection *)
+Definition ri_set (sd : rside) (p : pt) (r : rectints) : rectints :=
+  match sd with
+  | STop => mkri true true (ri_bottom r) (ri_left r) (ri_right r) p (ri_bottomP r) (ri_leftP r) (ri_rightP r)
+  | SBottom => mkri true (ri_top r) true (ri_left r) (ri_right r) (ri_topP r) p (ri_leftP r) (ri_rightP r)
+  | SLeft => mkri true (ri_top r) (ri_bottom r) true (ri_right r) (ri_topP r) (ri_bottomP r) p (ri_rightP r)
+  | SRight => mkri true (ri_top r) (ri_bottom r) (ri_left r) true (ri_topP r) (ri_bottomP r) (ri_leftP r) p
+  end.
+(* case COINCIDENT: all five flags false (the stored points stay) *)
+Definition ri_clear (r : rectints) : rectints :=
+  mkri false false false false false (ri_topP r) (ri_bottomP r) (ri_leftP r) (ri_rightP r).
+Definition ri_flag (sd : rside) (r : rectints) : bool :=
+  match sd with STop => ri_top r | SBottom => ri_bottom r | SLeft => ri_left r | SRight => ri_right r end.
+
+(* the sides of the rectangle [x0,x1] x [y0,y1] as lineIntersections builds them *)
+Definition rect_side (x0 x1 y0 y1 : Q) (sd : rside) : lseg :=
+  match sd with
+  | STop => mklseg (mkpt x0 y1) (mkpt x1 y1)
+  | SBottom => mklseg (mkpt x0 y0) (mkpt x1 y0)
+  | SLeft => mklseg (mkpt x0 y0) (mkpt x0 y1)
+  | SRight => mklseg (mkpt x1 y0) (mkpt x1 y1)
+  end.
+
+Fixpoint li_sides (I : lseg -> lseg -> lvec -> Z * lvec) (x0 x1 y0 y1 : Q) (l : lseg) (sides : list rside)
+                  (iv : lvec) (r : rectints) : rectints :=
+  match sides with
+  | [] => r
+  | sd :: rest =>
+      let res := I l (rect_side x0 x1 y0 y1 sd) iv in
+      let code := fst res in let iv' := snd res in
+      if Z.eqb code 3 then li_sides I x0 x1 y0 y1 l rest iv' (ri_set sd iv' r)
+      else if Z.eqb code 1 then ri_clear r                                  (* return false: stop *)
+      else if Z.eqb code 0 || Z.eqb code 2 then li_sides I x0 x1 y0 y1 l rest iv' r
+      else r                                                                (* not an enumerator: return false *)
+  end.
+Definition all_sides : list rside := [STop; SBottom; SLeft; SRight].
+Definition lineIntersections_model (I : lseg -> lseg -> lvec -> Z * lvec) (x0 x1 y0 y1 : Q) (l : lseg) (r : rectints) :=
+  li_sides I x0 x1 y0 y1 l all_sides pt0 r.
+Definition spec_lineIntersections := lineIntersections_model spec_LineSegment_Intersect.
+
+Lemma li_sides_ext I J x0 x1 y0 y1 l : (forall s o iv, I s o iv = J s o iv) ->
+  forall sides iv r, li_sides I x0 x1 y0 y1 l sides iv r = li_sides J x0 x1 y0 y1 l sides iv r.
+Proof.
+  intros E. induction sides as [|sd rest IH]; intros iv r; cbn [li_sides]; [reflexivity|].
+  rewrite E. repeat (destruct (_ : bool)); try reflexivity; apply IH.
+Qed.
+
+(* the classification does not depend on the previous value of the out-parameter *)
+Lemma spec_code_indep s o iv : fst (spec_LineSegment_Intersect s o iv) = spec_LineSegment_Intersect_code s o.
+Proof.
+  unfold spec_LineSegment_Intersect_code, spec_LineSegment_Intersect.
+  repeat (destruct (_ : bool)); reflexivity.
+Qed.
+Lemma spec_code_range s o : let c := spec_LineSegment_Intersect_code s o in c = 0%Z \/ c = 1%Z \/ c = 2%Z \/ c = 3%Z.
+Proof.
+  unfold spec_LineSegment_Intersect_code, spec_LineSegment_Intersect.
+  repeat (destruct (_ : bool)); cbn [fst]; tauto.
+Qed.
+
+(* what the flags say, starting from a fresh RectangleIntersections: if some side is COINCIDENT with the line (lies on
+   a common line with it) every flag is false - the line "does not intersect"; otherwise a side's flag is set iff that
+   side is INTERSECTING (non-parallel closed segments sharing a point), and `intersects` iff some side's flag is. *)
+Theorem spec_lineIntersections_flags x0 x1 y0 y1 l :
+  let code sd := spec_LineSegment_Intersect_code l (rect_side x0 x1 y0 y1 sd) in
+  let r := spec_lineIntersections x0 x1 y0 y1 l ri0 in
+  ((exists sd, code sd = 1%Z) ->
+     ri_intersects r = false /\ forall sd, ri_flag sd r = false) /\
+  ((forall sd, code sd <> 1%Z) ->
+     (forall sd, ri_flag sd r = Z.eqb (code sd) 3) /\
+     ri_intersects r = Z.eqb (code STop) 3 || Z.eqb (code SBottom) 3 || Z.eqb (code SLeft) 3 || Z.eqb (code SRight) 3).
+Proof.
+  cbv zeta. unfold spec_lineIntersections, lineIntersections_model, all_sides. cbn [li_sides].
+  rewrite !spec_code_indep.
+  pose proof (spec_code_range l (rect_side x0 x1 y0 y1 STop)) as R1.
+  pose proof (spec_code_range l (rect_side x0 x1 y0 y1 SBottom)) as R2.
+  pose proof (spec_code_range l (rect_side x0 x1 y0 y1 SLeft)) as R3.
+  pose proof (spec_code_range l (rect_side x0 x1 y0 y1 SRight)) as R4.
+  cbv zeta in R1, R2, R3, R4.
+  set (c1 := spec_LineSegment_Intersect_code l (rect_side x0 x1 y0 y1 STop)) in *.
+  set (c2 := spec_LineSegment_Intersect_code l (rect_side x0 x1 y0 y1 SBottom)) in *.
+  set (c3 := spec_LineSegment_Intersect_code l (rect_side x0 x1 y0 y1 SLeft)) in *.
+  set (c4 := spec_LineSegment_Intersect_code l (rect_side x0 x1 y0 y1 SRight)) in *.
+  assert (HC : forall sd, spec_LineSegment_Intersect_code l (rect_side x0 x1 y0 y1 sd) =
+                          match sd with STop => c1 | SBottom => c2 | SLeft => c3 | SRight => c4 end)
+    by (intros []; reflexivity).
+  clearbody c1 c2 c3 c4.
+  split.
+  - intros [sd Hsd]. rewrite HC in Hsd.
+    destruct R1 as [-> | [-> | [-> | ->]]], R2 as [-> | [-> | [-> | ->]]], R3 as [-> | [-> | [-> | ->]]], R4 as [-> | [-> | [-> | ->]]];
+      cbn [Z.eqb Pos.eqb orb li_sides];
+      try (split; [reflexivity|intros []; reflexivity]);
+      exfalso; destruct sd; discriminate.
+  - intros Hn.
+    pose proof (Hn STop) as N1. pose proof (Hn SBottom) as N2. pose proof (Hn SLeft) as N3. pose proof (Hn SRight) as N4.
+    rewrite HC in N1, N2, N3, N4. clear Hn.
+    destruct R1 as [-> | [-> | [-> | ->]]]; try congruence;
+    destruct R2 as [-> | [-> | [-> | ->]]]; try congruence;
+    destruct R3 as [-> | [-> | [-> | ->]]]; try congruence;
+    destruct R4 as [-> | [-> | [-> | ->]]]; try congruence;
+      (split; [intros sd; rewrite HC; destruct sd; reflexivity|reflexivity]).
+Qed.
+
+(* non-vacuity, and the configuration of the library-level demo: a zero-height rectangle [0,4] x [0,0] (left and right
+   sides are single points) crossed by the vertical line x = 2 -> top and bottom are hit at (2,0); a line running
+   along the flat rectangle is COINCIDENT with its top side -> nothing is reported; an ordinary crossing. *)
+Example spec_lineIntersections_ex :
+  let L (x0 y0 x1 y1 : Q) := mklseg (mkpt x0 y0) (mkpt x1 y1) in
+  let flags r := (ri_intersects r, ri_top r, ri_bottom r, ri_left r, ri_right r) in
+  flags (spec_lineIntersections 0 4 0 0 (L 2 (-2) 2 2) ri0) = (true, true, true, false, false) /\
+  pt_eq (ri_topP (spec_lineIntersections 0 4 0 0 (L 2 (-2) 2 2) ri0)) (mkpt 2 0) /\
+  flags (spec_lineIntersections 0 4 0 0 (L (-1) 0 5 0) ri0) = (false, false, false, false, false) /\
+  flags (spec_lineIntersections 0 4 0 4 (L (-1) 1 5 3) ri0) = (true, false, false, true, true) /\
+  flags (spec_lineIntersections 0 4 0 4 (L 5 5 6 6) ri0) = (false, false, false, false, false).
+Proof. vm_compute. repeat split. Qed.
